@@ -8,6 +8,7 @@ package main
 
 import (
 	"fmt"
+	"go/constant"
 
 	"golang.org/x/tools/go/ssa"
 )
@@ -70,7 +71,62 @@ func (m *Model) RunLiteral(s *Sink, rule string) {
 	}
 	loops := naturalLoops(rn)
 	if len(loops) == 0 {
-		s.Undecided(rule, fnKey(rn)+"|loop", m.Pos(rn.Pos()), "no loop in the number reader")
+		// the reader hands a byte predicate to a generic scanning helper: the predicate says which bytes belong
+		var preds []*ssa.Function
+		for _, b := range rn.Blocks {
+			for _, in := range b.Instrs {
+				c, ok := in.(*ssa.Call)
+				if !ok {
+					continue
+				}
+				for _, a := range c.Call.Args {
+					var f *ssa.Function
+					switch x := a.(type) {
+					case *ssa.MakeClosure:
+						f, _ = x.Fn.(*ssa.Function)
+					case *ssa.Function:
+						f = x
+					}
+					if f != nil && f.Signature.Params().Len() == 1 && f.Signature.Results().Len() == 1 && isBoolT(f.Signature.Results().At(0).Type()) {
+						preds = append(preds, f)
+					}
+				}
+			}
+		}
+		if len(preds) == 0 {
+			s.Undecided(rule, fnKey(rn)+"|loop", m.Pos(rn.Pos()), "neither a loop nor a byte predicate in the number reader")
+			return
+		}
+		var extra []string
+		undecided := ""
+		for bv := 0; bv < 256; bv++ {
+			if (bv >= '0' && bv <= '9') || bv == '.' {
+				continue
+			}
+			for _, pf := range preds {
+				ip := &Interp{m: m}
+				res, ok := ip.runClosure(pf, []any{constant.MakeInt64(int64(bv))}, make([]any, len(pf.FreeVars)), 0)
+				rc, isC := res.(constant.Value)
+				switch {
+				case !ok || !isC || rc.Kind() != constant.Bool:
+					undecided = fmt.Sprintf("%q: %s", rune(bv), ip.stuck)
+				case constant.BoolVal(rc):
+					extra = append(extra, fmt.Sprintf("%q", rune(bv)))
+				}
+			}
+		}
+		key := fnKey(rn) + "|a number consists of digits and dots only"
+		switch {
+		case len(extra) > 0:
+			if len(extra) > 6 {
+				extra = append(extra[:6], "...")
+			}
+			s.Violation(rule, key, m.Pos(rn.Pos()), "%s accepts the byte(s) %v as part of a number literal: the literal's text is then not a decimal number", fnKey(rn), extra)
+		case undecided != "":
+			s.Undecided(rule, key, m.Pos(rn.Pos()), "the byte predicate of the number reader could not be evaluated for %s", undecided)
+		default:
+			s.OK(rule, key, m.Pos(rn.Pos()), "the byte predicate the reader scans with rejects each of the 245 other byte values")
+		}
 		return
 	}
 	pc := &progressCtx{m: m}
